@@ -6,7 +6,7 @@ Exit codes (DESIGN 2.5):  0 = held on everything explored, 1 = VIOLATION line pr
 import json, os, sys, time, hashlib, re, subprocess
 
 VERIF = os.path.dirname(os.path.dirname(os.path.abspath(__file__)))
-REPO = os.environ.get("VERIF_REPO", "/repo")
+REPO = os.environ.get("VERIF_REPO") or "/repo"
 WORK = os.path.join(VERIF, ".work")
 EVID = os.path.join(VERIF, "evidence")
 REPLAYS = os.path.join(VERIF, "replays")
